@@ -100,6 +100,34 @@ CapAdd   == st = "ok" /\ stk # <<>> /\ Top.k = "cap"
             /\ Ret("ok") /\ nadd' = nadd + 1 /\ UNCHANGED <<pos, memo, nhit>>
 CapKo    == st = "ko" /\ stk # <<>> /\ Top.k = "cap" /\ Ret("ko") /\ Silent
 
+\* -switch: a choice rewritten by the optimiser (Optimizer!UAlt) is a switch on buffer[position]: no save, no
+\* restore, exactly one case runs and its outcome is the outcome of the choice.  The character that selected a
+\* case is known to be accepted by the case's first mandatory terminal, which therefore skips its own test
+\* (ParentDetect); the flag travels to the first element of sequences, into captures and into inlined rules, and
+\* nowhere else; a character test of a case with several labels is kept (ParentMultipleKey).
+SkipE(e, multi) == [op |-> "skip", e |-> e, multi |-> multi]
+SwitchDispatch(w) ==
+  /\ st = "eval" /\ cur.op = "ualt"
+  /\ LET hit == {k \in 1..Len(cur.cases) : Sym(w) \in cur.cases[k].labels} IN
+     cur' = IF hit = {} THEN cur.dflt
+            ELSE LET k == CHOOSE k \in hit : \A j \in hit : k <= j IN SkipE(cur.cases[k].e, Cardinality(cur.cases[k].labels) > 1)
+  /\ st' = "eval" /\ UNCHANGED stk /\ Silent
+SkipTerminal(w) ==
+  /\ st = "eval" /\ cur.op = "skip" /\ cur.e.op \in {"chr", "rng", "dot"}
+  /\ Match(IF cur.e.op = "chr" /\ cur.multi THEN Sym(w) = cur.e.c ELSE TRUE)
+SkipSeq ==
+  /\ st = "eval" /\ cur.op = "skip" /\ cur.e.op = "seq"
+  /\ LET first == SkipE(cur.e.es[1], cur.multi) IN
+     Descend([k |-> "seq", es |-> [cur.e.es EXCEPT ![1] = first], i |-> 1], first)
+  /\ Silent
+SkipCap == st = "eval" /\ cur.op = "skip" /\ cur.e.op = "cap" /\ Descend([k |-> "cap", sp |-> pos], SkipE(cur.e.a, cur.multi)) /\ Silent
+SkipInline(B, Inl) ==
+  /\ st = "eval" /\ cur.op = "skip" /\ cur.e.op = "ref" /\ cur.e.r \in Inl
+  /\ Descend([k |-> "inl", r |-> cur.e.r, sp |-> pos], SkipE(B[cur.e.r], cur.multi)) /\ Silent
+SkipDrop(Inl) ==
+  /\ st = "eval" /\ cur.op = "skip" /\ cur.e.op \notin {"chr", "rng", "dot", "seq", "cap"} /\ ~(cur.e.op = "ref" /\ cur.e.r \in Inl)
+  /\ cur' = cur.e /\ st' = "eval" /\ UNCHANGED stk /\ Silent
+
 \* rule call (L1298-1319, tmpl 376-402).  An action is a rule whose body is empty.
 RuleOf(e) == IF IsAct(e) THEN ActName(e.k) ELSE e.r
 IsCall(e) == e.op \in {"ref", "act"}
@@ -170,6 +198,11 @@ StepInl(B, w, memoOn, Inl) ==
   \/ (IsCall(cur) /\ st = "eval" /\ RuleOf(cur) \notin Inl /\ (MemoHit(memoOn) \/ RuleEnter(memoOn, B)))
   \/ RuleOk(memoOn) \/ RuleKo(memoOn)
   \/ Halt
+
+\* with -switch (and possibly -inline): B holds the rewritten bodies
+StepSw(B, w, memoOn, Inl) ==
+  \/ StepInl(B, w, memoOn, Inl)
+  \/ SwitchDispatch(w) \/ SkipTerminal(w) \/ SkipSeq \/ SkipCap \/ SkipInline(B, Inl) \/ SkipDrop(Inl)
 
 Step(B, w, memoOn) ==
   \/ MatchChr(w) \/ MatchRng(w) \/ MatchDot(w) \/ EvalNil \/ EvalPred
